@@ -100,6 +100,8 @@ var c02Table = []c02Ent{
 	{Path: "/empty", Kind: 'd'},
 	{Path: "/sub2", Kind: 'd'},
 	{Path: "/sub2/Casketfile", Kind: 'f', Tok: "SUBCASKET"},
+	{Path: "/x", Kind: 'd'},
+	{Path: "/x/Casketfile", Kind: 'f', Tok: "XCASKET"},
 	{Path: "/links", Kind: 'd'},
 	{Path: "/links/plain.txt", Kind: 'f', Tok: "PLAIN"},
 	{Path: "/links/hard-casket", Kind: 'h', To: "/Casketfile"},
@@ -109,7 +111,32 @@ var c02Table = []c02Ent{
 // the hide list the sites end up with: hideCasketfile's entry first, then the `internal` paths
 var c02Internal = []string{"/secret.txt", "/hsib.txt.gz", "/hidx/index.html"}
 
-func c02Hide() []string { return append([]string{"/Casketfile"}, c02Internal...) }
+func c02Hide() []string { return c02HideOf("static") }
+
+// c02Origin is where a site kind claims its configuration was loaded from, relative to the
+// fixture's base directory: inside the root (hidden by hideCasketfile), in a sub-directory of the
+// root, outside the root, and in a sibling directory whose name extends the root's (rootx).
+func c02Origin(site string) string {
+	switch site {
+	case "origin-sub":
+		return "root/sub2/Casketfile"
+	case "origin-out":
+		return "outside/Casketfile"
+	case "origin-rootx":
+		return "rootx/Casketfile"
+	}
+	return "root/Casketfile"
+}
+
+// c02HideOf is the hide list of a site kind as hideCasketfile computes it (string prefix test on
+// the absolute paths, then TrimPrefix), followed by the `internal` paths.
+func c02HideOf(site string) []string {
+	var out []string
+	if o := c02Origin(site); strings.HasPrefix(o, "root") {
+		out = append(out, strings.TrimPrefix(o, "root"))
+	}
+	return append(out, c02Internal...)
+}
 
 const (
 	c02OutsideID = 1 // tokens of files outside the root
@@ -307,6 +334,7 @@ func c02VerifyDisk(root string) string {
 // sites
 
 var c02SiteKinds = []string{"static", "browse", "scoped"}
+var c02OriginKinds = []string{"origin-sub", "origin-out", "origin-rootx"}
 
 // browse configuration of a site kind: scope and archive types ("" = no browse)
 func c02Browse(site string) (scope string, types []string) {
@@ -317,6 +345,8 @@ func c02Browse(site string) (scope string, types []string) {
 		return "/dir", []string{"zip", "tar.gz"}
 	case "prefix-browse":
 		return "/", nil
+	case "origin-sub", "origin-out", "origin-rootx":
+		return "/", []string{"zip"}
 	}
 	return "", nil
 }
@@ -343,6 +373,8 @@ func c02Site(kind string) (*liveSite, error) {
 		body += "browse / {\n servearchive\n}\n"
 	case "scoped":
 		body += "browse /dir {\n servearchive zip tar.gz\n}\n"
+	case "origin-sub", "origin-out", "origin-rootx":
+		body += "browse / {\n servearchive zip\n}\n"
 	}
 	casket.Quiet = true
 	text := "127.0.0.1:0 {\n" + body + "}\n"
@@ -352,7 +384,7 @@ func c02Site(kind string) (*liveSite, error) {
 		}
 		text = "127.0.0.1:0/pre {\n" + body + "}\n"
 	}
-	inst, err := casket.Start(casket.CasketfileInput{Contents: []byte(text), Filepath: filepath.Join(fx.root, "Casketfile"), ServerTypeName: "http"})
+	inst, err := casket.Start(casket.CasketfileInput{Contents: []byte(text), Filepath: filepath.Join(fx.base, c02Origin(kind)), ServerTypeName: "http"})
 	if err != nil {
 		return nil, err
 	}
@@ -687,10 +719,8 @@ func c02Run(in0 interface{}) Result {
 		loc = loc[:i]
 	}
 	req := cApp("mkreq", cN(c02MethodCode(in.Method)), cStr(p), cStr(in.AE), cStr(c02QueryGet(query, "archive")))
-	site := cApp("mksite", cStr(scope), cStrList(types))
-	if scope == "" {
-		site = "static_site"
-	}
+	fx := c02Fixture()
+	site := cApp("mksite", cStr(fx.root), cStr(filepath.Join(fx.base, c02Origin(in.Site))), cStr(scope), cStrList(types))
 	ob := cApp("mkobs", cN(uint64(o.Status)), cStr(loc), cStr(o.CE), cN(uint64(o.Kind)), cNList(o.IDs), cStrList(o.Names))
 	if prefixSite {
 		// the path-prefix trimming of httpserver.Server (url.Parse of the escaped rest) is not modelled:
@@ -717,9 +747,9 @@ func c02Sig(in *c02In, p, query string) string {
 		}
 	}
 	hiddenID := map[uint64]bool{}
-	for _, h := range c02Hide() {
+	for _, h := range c02HideOf(in.Site) {
 		for _, n := range nodes {
-			if n.Path == h {
+			if n.Path == path.Clean("/"+h) { // hide entries are opened through the jail
 				hiddenID[n.ID] = true
 			}
 		}
@@ -1023,12 +1053,21 @@ func c02Gen(r *Rand, tier string) []interface{} {
 		add(site, "GET", "/pre/..%2fpre/dir", "", false)
 	}
 
+	// sites whose origin Casketfile lies elsewhere: in a sub-directory of the root, outside the root,
+	// in a sibling directory whose name has the root's as a prefix
+	for _, site := range c02OriginKinds {
+		for _, t := range []string{"/Casketfile", "/sub2/Casketfile", "/x/Casketfile", "/sub2/./Casketfile", "/x/../sub2/Casketfile/.", "/links/hard-casket", "/", "/sub2/", "/x/",
+			"/?archive=zip", "/sub2/?archive=zip", "/x/?archive=zip", "/secret.txt", "/a.txt", "/../outside/Casketfile", "/../rootx/Casketfile"} {
+			add(site, "GET", t, r.Pick([]string{"", "gzip"}), r.Chance(30))
+		}
+	}
+
 	// (3) random respellings of fixture paths and of paths aimed outside the root
 	n := 1100
 	if thorough {
 		n = 22000
 	}
-	extra := []string{"/nope", "/dir/nope.txt", "/../outside/o.txt", "/../rootx/x.txt", "/../root.txt", "/../outside/Casketfile", "/dir/../../outside/o.txt", "/CASKETFILE", "/casketfile",
+	extra := []string{"/x/Casketfile", "/sub2/Casketfile", "/nope", "/dir/nope.txt", "/../outside/o.txt", "/../rootx/x.txt", "/../root.txt", "/../outside/Casketfile", "/dir/../../outside/o.txt", "/CASKETFILE", "/casketfile",
 		"/Secret.txt", "/SECRET.TXT", "/hsib.txt.GZ", "/HIDX/", "/hidx/INDEX.HTML", "/a.txt.gz", "/a.txt.zst/", "/dir/e.gz", "/idir/index.html", "/up.txt", "/DIR/c.txt", "/sub2/casketfile"}
 	for i := 0; i < n; i++ {
 		var p string
@@ -1056,6 +1095,8 @@ func c02Gen(r *Rand, tier string) []interface{} {
 		if r.Chance(8) {
 			site = r.Pick([]string{"prefix", "prefix-browse"})
 			target = "/pre" + target
+		} else if r.Chance(8) {
+			site = r.Pick(c02OriginKinds)
 		}
 		if site != "static" || r.Chance(15) {
 			target += c02PickQuery(r, site)
